@@ -32,6 +32,30 @@ CHECKS = {
              "standard ids, every field exhaustively in several contexts, boundary integers, generated mixed matrices).",
              note=TB + "Model: coq/model/ArbId.v (after the fix: commit dda9667 in /repo). frame_by_id's memo is modelled as a scan here (C10 covers the memo).",
              technique="Coq proof over a Gallina model (bit-mask lemmas -> div/mod arithmetic) + model/implementation correspondence", ref="5/C09"),
+ "C03": dict(text="Theorems (coq/props/C03.v) prove for every simply multiplexed frame, selector value (used or not) and payload that decode returns exactly "
+             "the multiplexer, the unbound signals and the signals bound to the selector value present, each with its C01 value; for extended "
+             "multiplexing (any nesting depth, several ranges per signal) that a signal is returned iff it is Active (inductive relation), that the "
+             "selector walk terminates for all frames with unique names, the inclusive range test, that encode writes only the selected group and "
+             "round-trips with overlapping groups, and that complex encode is refused. Tie: differential run of Frame.decode/encode incl. frames "
+             "loaded from generated DBC text (SG_MUL_VAL_), every selector value, range boundaries.",
+             note=TB + "Model: coq/model/Mux.v on top of Codec.v. Outside: PDU containers, float multiplexers, duplicate signal names, the DBC regexes.",
+             technique="Coq proof over a Gallina model + model/implementation correspondence + oracle-based search", ref="5/C03"),
+ "C11": dict(text="Theorems (coq/props/C11.v) prove, for matrices whose receiver lists are up to date, what rename/delete (object or glob)/update/"
+             "remove-obsolete do to the ECU list and to every transmitter, signal-receiver and frame-receiver list (image under old->new, exact "
+             "filters, nothing else changed), that the glob matcher decides fnmatch's relation for literal/*/? patterns, and by induction over "
+             "arbitrary operation sequences that every frame's receiver list stays the duplicate-free union of its signals' receivers. Four "
+             "_refuted witnesses show each envelope hypothesis is needed. Tie: every state after every operation of generated histories compared "
+             "with the model; search with a set-based oracle; shrinking of failing histories.",
+             note=TB + "Model: coq/model/EcuOps.v, Glob.v. Envelope hypotheses (visible in the statements): no duplicate names inside one reference list, no surrounding whitespace in names, no glob metacharacters in ECU names; references held by free signals are not rewritten by rename/delete (observed, recorded in DESIGN.md).",
+             technique="Coq proof (invariant by induction over operation sequences) + model/implementation correspondence on histories", ref="5/C11"),
+ "C17": dict(text="Theorems (coq/props/C17.v) prove for all matrices, names and patterns: delete_zero_signals = filter (size <> 0) per frame with order and "
+             "everything else kept; delete_obsolete_defines keeps exactly the definitions some frame/ECU/signal (incl. free signals) uses; del_signal/"
+             "del_frame/rename_signal/rename_frame/del_*_attributes change exactly the matching objects (prefix*, *suffix, exact; glob for deletion) and "
+             "any sequence of these equals the fold of the specified effects. The repaired defects are reproduced as _refuted witnesses on models of "
+             "the old loops. Tie: ~17k single operations and histories vs the model and vs an independent oracle; fnmatch tie on 8k pairs; DBC export "
+             "of the result.",
+             note=TB + "Model: coq/model/BulkOps.v, Glob_c17.v (proved equal to Glob.v). Patterns containing '[' are outside the glob model; shared Signal objects between frames are outside.",
+             technique="Coq proof over a Gallina model of the list-editing loops + model/implementation correspondence + oracle-based search", ref="5/C17"),
 }
 NOT_YET = {}
 props = [json.loads(l) for l in open(os.path.join(V, "properties.jsonl"))]
